@@ -29,6 +29,10 @@ theorem C07_code_isolating : Isolating codePlacement := by decide
     (on the pinned tree `iterations`/`tolerance` were missing: `C07_fresh_thread_counterexample`) -/
 theorem C07_code_lazy_complete : codePlacement.lazy.Complete := by decide
 
+/-- [table] the first `with in_array_formula_context(addr)` a brand-new thread ever runs sees `addr` (the model's
+    `ctxCall` goes through the lazily initialising `ns`, as excelutil.py:860 does) -/
+theorem C07_code_ctx_fresh : Gen.Threads.ctxFreshFirstWith = true := by decide
+
 /-- [table] every module-level / class-level mutable of the pycel modules that a multi-compiler workload was
     measured to write is one the model accounts for (`Shared.metaNs`, `Shared.ctr`): nothing else is shared.
     (`star_args` is filled at import time only; the tracker / context singletons keep nothing on the instance.) -/
@@ -113,7 +117,7 @@ def sigma1 : List Tid := [0, 0, 0] ++ List.replicate 7 1 ++ List.replicate 5 0
 /-- non-vacuity: under the live placement the interleaved run of A equals its solo run, and A is not trivial
     (it reads its own tolerance 1/1000 and needs another pass) -/
 example : (proj (run codePlacement sigma1 (initGlobal (progs2 progA progB))) 0).obs =
-    [.tol (1, 1000), .bool false, .fin (some 1) (some 5) (some (1, 1000)) (some 1) (some 1) none] := by decide
+    [.tol (1, 1000), .bool false, .fin (some 1) (some 5) (some (1, 1000)) (some 1) (some 1) (some 1)] := by decide
 
 /-- if the tracker namespace were one module-level object (the 1.0b20 bug), the same schedule makes A read B's
     tolerance and iteration count: isolation is not provable for that placement. -/
@@ -123,12 +127,12 @@ theorem C07_global_tracker_counterexample :
     (proj (run P sigma1 g) 0).obs ≠ (proj (runSolo P 0 (sigma1.count 0) g) 0).obs := by decide
 
 /-- array-formula workloads: A evaluates a CSE range B1:B3, B a CSE range D1:D2, nested one level -/
-def progC : List Op := [.ctxCall "B1:B3", .enter, .yp, .top, .ctxCall "N", .enter, .top, .exit, .top, .exit, .fin]
-def progD : List Op := [.ctxCall "D1:D2", .enter, .yp, .top, .exit, .fin]
-def sigma2 : List Tid := [0, 0, 0, 1, 1, 1, 0, 0, 0, 1, 1, 1, 0, 0, 0, 0, 0]
+def progC : List Op := [.ctxCall "B1:B3", .enter, .yp, .top, .ctxCall "N", .enter, .top, .exit, .top, .exit]
+def progD : List Op := [.ctxCall "D1:D2", .enter, .yp, .top, .exit]
+def sigma2 : List Tid := [0, 0, 0, 1, 1, 1, 0, 0, 0, 1, 1, 0, 0, 0, 0]
 
 example : (proj (run codePlacement sigma2 (initGlobal (progs2 progC progD))) 0).obs =
-    [.addr "B1:B3", .addr "N", .addr "B1:B3", .fin none none none none none (some 1)] := by decide
+    [.addr "B1:B3", .addr "N", .addr "B1:B3"] := by decide
 
 /-- if the context stack were one module-level list (the 1.0b19 bug), A's `fit_to_range` sees B's target range -/
 theorem C07_global_ctx_counterexample :
